@@ -1557,11 +1557,11 @@ def dataseg_tie(ctx, cases, stats):
         ctx.violation("dataseg protocol: the harness did not return the data segment literal",
                       {"broken": "dataseg", "impl": impl[:3]}, no_input=True)
         return
-    mlines = ["dataseg " + a[4:] + " " + " ".join(hexs(k) for k in c["consts"] if k) for a, c in zip(impl, cases)]
+    mlines = ["dataseg " + a[4:] + " " + " ".join(hexs(k) for k in c.get("consts", []) if k) for a, c in zip(impl, cases)]
     rc, model, err = common.run_exec(common.driver_bin(PROP), [], mlines)
     for c, a, m in zip(cases, impl, model + ["<missing>"] * len(cases)):
         stats["dataseg"] = stats.get("dataseg", 0) + 1
-        nk = len([k for k in c["consts"] if k])
+        nk = len([k for k in c.get("consts", []) if k])
         if not (m.startswith("roundtrip=true ") and m.endswith(f"found={nk}/{nk}")):
             ctx.violation(f"the string data segment of a compiled program is not byte-exact ({c['name']}): model check says `{m}` "
                           f"(print_byte_vec must print one escape or one ASCII alphanumeric per byte, and every constant's bytes must be in the segment)",
